@@ -85,7 +85,9 @@ Inductive case :=
 | CBack (kind : nat) (name : bytes) (params returns : list pin)
         (cls : nat) (sig : bytes) (ins outs : list fparam) (helper : bytes)
 (* an ABI entry: class and value of Entry.Signature(), ABIMethodToSignature(entry) *)
-| CSig (e : entry) (sigcls : nat) (sig : bytes) (helper : bytes).
+| CSig (e : entry) (sigcls : nat) (sig : bytes) (helper : bytes)
+(* a definition whose parameter lists hold null entries ([None] = nil *FFIParam): class only *)
+| CBackN (kind : nat) (name : bytes) (params returns : list (option pin)) (cls : nat).
 
 Definition check_case (c : case) : N :=
   match c with
@@ -128,6 +130,20 @@ Definition check_case (c : case) : N :=
           else if negb (bytes_eqb (ABIMethodToSignature e) helper) then 8 else 0
       | Err _, 1%nat => if bytes_eqb (ABIMethodToSignature e) helper then 0 else 8
       | _, _ => 7
+      end
+  | CBackN kind name params returns cls =>
+      if (cls =? 2)%nat then 12 else
+      (* property oracle: a null entry in a parameter list is an error *)
+      if (cls =? 0)%nat && existsb (fun o => match o with None => true | Some _ => false end) (params ++ returns) then 14 else
+      let r := match kind with
+               | 0%nat => ConvertFFIMethodToABI_opt name params returns
+               | 1%nat => ConvertFFIEventDefinitionToABI_opt name params
+               | _ => ConvertFFIErrorDefinitionToABI_opt name params
+               end in
+      match r, cls with
+      | Ok _, 0%nat => 0
+      | Err _, 1%nat => 0
+      | _, _ => 3
       end
   end.
 
